@@ -370,6 +370,36 @@ fn g_tables(_src: &mut Src, obs: &mut Obs) -> CaseResult {
             return Err(Fail::new(format!("C18:permission:{}", name), format!("permission {} has bits 0x{:02x}, specification says 0x{:02x}", name, p.bits(), bits), json!({})));
         }
     }
+    // the permission set as a set: every operation of the public API, over all pairs of the 64
+    // defined sets, agrees with the same operation on the numbers masked to the six defined bits
+    // (a permission value never carries a bit that names no permission)
+    for a in 0..64u8 {
+        let pa = Permissions::from_bits(a);
+        let Some(pa) = pa else {
+            return Err(Fail::new("C18:permission:from_bits", format!("from_bits(0x{:02x}) refused although all bits are defined", a), json!({})));
+        };
+        obs.sub_evals += 1;
+        let not_a = (!pa).bits();
+        if not_a != (!a & 0x3F) || pa.complement().bits() != (!a & 0x3F) {
+            return Err(Fail::new("C18:permission:complement", format!("!0x{:02x} = 0x{:02x}, expected 0x{:02x}", a, not_a, !a & 0x3F), json!({})));
+        }
+        if Permissions::from_bits((!pa).bits()) != Some(!pa) {
+            return Err(Fail::new("C18:permission:complement", format!("the complement of 0x{:02x} does not map back through from_bits", a), json!({})));
+        }
+        for b in 0..64u8 {
+            let pb = Permissions::from_bits_truncate(b);
+            let ok = (pa | pb).bits() == (a | b) && (pa & pb).bits() == (a & b) && (pa ^ pb).bits() == (a ^ b) && (pa - pb).bits() == (a & !b)
+                && pa.contains(pb) == (a & b == b) && pa.intersects(pb) == (a & b != 0);
+            if !ok {
+                return Err(Fail::new("C18:permission:set-operation", format!("set operations on 0x{:02x} and 0x{:02x} disagree with the numbers", a, b), json!({})));
+            }
+        }
+    }
+    for v in 64..=255u8 {
+        if Permissions::from_bits(v).is_some() || Permissions::from_bits_truncate(v).bits() != (v & 0x3F) {
+            return Err(Fail::new("C18:permission:undefined-bits", format!("0x{:02x} carries undefined bits", v), json!({})));
+        }
+    }
     if Permissions::all().bits() != 0x3F {
         return Err(Fail::new("C18:permission:all", format!("all permissions = 0x{:02x}", Permissions::all().bits()), json!({})));
     }
@@ -522,6 +552,14 @@ pub fn neighbourhood(s: &str) -> Vec<String> {
     out.push(format!("{} ", s));
     out.push(format!(" {}", s));
     out.push(format!("{}\0", s));
+    // characters that packing / hashing / trimming code may lose: NUL, space, tab, newline and a
+    // non-ASCII character, once and twice, in front and behind; the name doubled
+    for pad in ["\0", "\0\0", "\t", "\n", "\u{a0}", "\u{feff}", "\u{200b}", "  "] {
+        out.push(format!("{}{}", pad, s));
+        out.push(format!("{}{}", s, pad));
+        out.push(format!("{}{}{}", pad, s, pad));
+    }
+    out.push(format!("{}{}", s, s));
     out
 }
 
@@ -550,7 +588,7 @@ pub fn crossovers() -> Vec<String> {
     out.into_iter().collect()
 }
 
-pub const RULE: &str = "Exhaustive for every table. Every pair (and triple with a repeat) of valid spellings is also decoded inside the list members that carry them (GetInfo versions / extensions / transports, attestationFormatsPreference): each occurrence must be recognised as the identifier it spells. Every probed string is additionally presented to the decoder as a byte string, a one-element array, a tagged text and a text with a non-minimal length prefix (all must be rejected). Cross-combinations of two valid spellings (concatenation, spelling + every suffix of another, prefix + spelling, prefix/suffix cross-overs) are presented to every string enumeration as well. String enumerations (Version, Extension, Transport, AttestationStatementFormat): every valid spelling of every enumeration is presented to every enumeration, together with every single-character deletion, substitution and insertion over [A-Za-z0-9_-], every case change, every proper prefix, one-character extensions, padded and NUL-terminated variants and the empty string - accepted iff the string is a valid spelling of THAT enumeration - through TryFrom<&str>/From and through cbor_deserialize/cbor_serialize; plus proptest random strings. Numeric enumerations (PinV1Subcommand, Subcommand, CredentialProtectionPolicy, ControlByte): all 256 byte values through TryFrom<u8> where it exists and through the decoder, integers at every head-width threshold up to 2^64-1, and negative integers. One whole-table case: `as u8` of every named status against the CTAP status table, permission bits, the spelling / number of every variant, pairwise distinct codes. Oracle: the specification tables in the harness. Every probe is a distinct (table, value) pair.";
+pub const RULE: &str = "Exhaustive for every table. The permission bit set is additionally checked as a set: complement, union, intersection, difference, symmetric difference, contains / intersects over all pairs of the 64 defined sets against the same operations on the numbers (no operation may produce an undefined bit). Every pair (and triple with a repeat) of valid spellings is also decoded inside the list members that carry them (GetInfo versions / extensions / transports, attestationFormatsPreference): each occurrence must be recognised as the identifier it spells. Every probed string is additionally presented to the decoder as a byte string, a one-element array, a tagged text and a text with a non-minimal length prefix (all must be rejected). Cross-combinations of two valid spellings (concatenation, spelling + every suffix of another, prefix + spelling, prefix/suffix cross-overs) are presented to every string enumeration as well. String enumerations (Version, Extension, Transport, AttestationStatementFormat): every valid spelling of every enumeration is presented to every enumeration, together with every single-character deletion, substitution and insertion over [A-Za-z0-9_-], every case change, every proper prefix, one-character extensions, padded and NUL-terminated variants and the empty string - accepted iff the string is a valid spelling of THAT enumeration - through TryFrom<&str>/From and through cbor_deserialize/cbor_serialize; plus proptest random strings. Numeric enumerations (PinV1Subcommand, Subcommand, CredentialProtectionPolicy, ControlByte): all 256 byte values through TryFrom<u8> where it exists and through the decoder, integers at every head-width threshold up to 2^64-1, and negative integers. One whole-table case: `as u8` of every named status against the CTAP status table, permission bits, the spelling / number of every variant, pairwise distinct codes. Oracle: the specification tables in the harness. Every probe is a distinct (table, value) pair.";
 pub const ASSUMPTIONS: &[&str] = &["identifier tables transcribed from CTAP 2.1 (sections 6.4, 6.5.5, 6.8, 8.2) and the U2F raw message format"];
 
 pub fn run(ctx: &mut Ctx) {
